@@ -695,10 +695,15 @@ Section Hit.
           unfold ext_ok. repeat split; auto. apply merge_two_extents; auto; lia.
   Qed.
 
-  Lemma handle_hit_spec st st' rs re exts (matching : bool) resp wb :
+  (* T fact: in handleHit's loop the fetched response is appended to the answer before the
+     shouldCacheResponse test *)
+  Lemma answer_first : answer_appended_before_store_test = true.
+  Proof. reflexivity. Qed.
+
+  Lemma handle_hit_spec (stor : Z -> Z -> bool) st st' rs re exts (matching : bool) resp wb :
     0 < st -> 0 < st' -> mode_ok st st' (if matching then st else 0) -> (st | rs) -> (st | re) -> 0 <= rs -> rs <= re ->
     Forall (ext_ok f sids st') exts ->
-    handle_hit f sids rs re st exts matching = (resp, wb) ->
+    handle_hit f sids stor rs re st exts matching = (resp, wb) ->
     resp = eval f sids rs re st /\
     (matching = false -> forall e', wb = Some e' -> Forall (ext_ok f sids st) e').
   Proof.
@@ -711,20 +716,23 @@ Section Hit.
     - inversion E; subst. cbn [map] in HR. rewrite app_nil_r in HR. split; [exact HR | intros _ e' K; discriminate].
     - rewrite <- Ereqs in *.
       set (rr := map (fun ab => (fst ab, snd ab, eval f sids (fst ab) (snd ab) st)) reqs) in *.
+      set (storable := filter (fun x : extent => stor (fst (fst x)) (snd (fst x))) rr) in *.
+      rewrite answer_first in E.
       assert (Emap : map snd rr = map (fun ab => eval f sids (fst ab) (snd ab) st) reqs)
         by (unfold rr; rewrite map_map; reflexivity).
       rewrite Emap in E.
       assert (Resp : resp = eval f sids rs re st).
-      { destruct (sort_by ext_lt (exts ++ rr)); inversion E; subst; exact HR. }
+      { destruct (sort_by ext_lt (exts ++ storable)); inversion E; subst; exact HR. }
       split; [exact Resp|]. intros -> e' K.
       destruct Hm as [[_ ->]|[Hbad _]]; [|lia].
-      destruct (sort_by_spec ext_lt ext_lt_asym ext_le_trans (exts ++ rr)) as [Ss Sm].
+      destruct (sort_by_spec ext_lt ext_lt_asym ext_le_trans (exts ++ storable)) as [Ss Sm].
       subst wb.
-      destruct (sort_by ext_lt (exts ++ rr)) as [|e0 es] eqn:Es; inversion E as [[E1 E2]]; subst e'.
+      destruct (sort_by ext_lt (exts ++ storable)) as [|e0 es] eqn:Es; inversion E as [[E1 E2]]; subst e'.
       assert (Fall : Forall (ext_ok f sids st) (e0 :: es)).
       { rewrite Forall_forall. intros x Hx. apply Sm in Hx. apply in_app_or in Hx as [Hx|Hx].
         - rewrite Forall_forall in F. apply F. exact Hx.
-        - unfold rr in Hx. apply in_map_iff in Hx as (ab & <- & Hab). rewrite Forall_forall in Frq.
+        - unfold storable in Hx. apply filter_In in Hx as [Hx _].
+          unfold rr in Hx. apply in_map_iff in Hx as (ab & <- & Hab). rewrite Forall_forall in Frq.
           destruct (Frq ab Hab) as (A & B & C & D). unfold ext_ok. repeat split; auto. lia. }
       inversion Fall as [|? ? H0 Frest]; subst. cbn in Ss. destruct Ss as [S1 S2].
       apply merge_exts_ok; auto. intros y Hy. apply ext_lt_false_start. apply S1. exact Hy.
@@ -766,6 +774,7 @@ Section History.
   Variable f : downstream.
   Variable sids : list Z.
   Hypothesis Hsids : incr sids.
+  Variable sto : Z -> Z -> Z -> bool.   (* which fetched responses may be stored: arbitrary *)
 
   Definition cache_ok (c : cache) : Prop :=
     forall k exts, lookup k c = Some exts -> 0 < fst k /\ Forall (ext_ok f sids (fst k)) exts.
@@ -779,20 +788,20 @@ Section History.
 
   Lemma do_cache_spec split c rs re st resp c' :
     0 < st -> (st | rs) -> (st | re) -> 0 <= rs -> rs <= re -> cache_ok c ->
-    do_cache f sids split c rs re st = (resp, c') ->
+    do_cache f sids sto split c rs re st = (resp, c') ->
     resp = eval f sids rs re st /\ cache_ok c'.
   Proof.
     intros Hst Hrs Hre Hrs0 Hle Hc E. unfold do_cache in E.
     set (w := Z.quot rs split) in *.
     destruct (lookup (st, w) c) as [exts|] eqn:L.
     - destruct (Hc _ _ L) as [_ Fe]. cbn [fst] in Fe.
-      destruct (handle_hit f sids rs re st exts false) as [r wb] eqn:HH.
+      destruct (handle_hit f sids (sto re) rs re st exts false) as [r wb] eqn:HH.
       inversion E; subst. clear E.
-      destruct (handle_hit_spec f sids Hsids st st rs re exts false resp wb Hst Hst (or_introl (conj eq_refl eq_refl)) Hrs Hre Hrs0 Hle Fe HH) as [A B].
+      destruct (handle_hit_spec f sids Hsids (sto re) st st rs re exts false resp wb Hst Hst (or_introl (conj eq_refl eq_refl)) Hrs Hre Hrs0 Hle Fe HH) as [A B].
       split; [exact A|]. destruct wb as [e'|]; [|exact Hc].
       apply cache_ok_store; [exact Hc | exact Hst | apply B; reflexivity].
     - destruct (first_found (map (fun a => (a, w)) (alt_steps rs st)) c) as [exts|] eqn:FF.
-      + destruct (handle_hit f sids rs re st exts true) as [r wb] eqn:HH. cbn [fst] in E.
+      + destruct (handle_hit f sids (sto re) rs re st exts true) as [r wb] eqn:HH. cbn [fst] in E.
         inversion E; subst. clear E. split; [|exact Hc].
         apply first_found_in in FF as (k & Hk & Lk).
         apply in_map_iff in Hk as (a & <- & Ha).
@@ -800,9 +809,10 @@ Section History.
         unfold alt_steps in Ha. destruct (existsb (Z.eqb st) common_query_steps); [|contradiction].
         apply filter_In in Ha as [_ Ha]. apply andb_true_iff in Ha as [Ha Ha3]. apply andb_true_iff in Ha as [Ha1 Ha2].
         assert (Hdiv : (a | st)) by (apply Z.rem_divide; lia).
-        destruct (handle_hit_spec f sids Hsids st a rs re exts true resp wb Hst Ha0 (or_intror (conj eq_refl Hdiv)) Hrs Hre Hrs0 Hle Fe HH) as [A _].
+        destruct (handle_hit_spec f sids Hsids (sto re) st a rs re exts true resp wb Hst Ha0 (or_intror (conj eq_refl Hdiv)) Hrs Hre Hrs0 Hle Fe HH) as [A _].
         exact A.
       + inversion E; subst. clear E. split; [reflexivity|].
+        destruct (sto re rs re); [|exact Hc].
         apply cache_ok_store; [exact Hc | exact Hst|]. constructor; [|constructor].
         unfold ext_ok. cbn [fst]. repeat split; auto.
   Qed.
@@ -812,14 +822,14 @@ Section History.
 
   Lemma do_subs_spec split st : 0 < st -> forall subs c rs c',
     Forall (sub_ok st) subs -> cache_ok c ->
-    do_subs f sids split c subs st = (rs, c') ->
+    do_subs f sids sto split c subs st = (rs, c') ->
     rs = map (fun ab => eval f sids (fst ab) (snd ab) st) subs /\ cache_ok c'.
   Proof.
     intros Hst. induction subs as [|[a b] subs IH]; intros c rs c' F Hc E.
     - cbn in E. inversion E; subst. auto.
     - inversion F as [|? ? Hab F']; subst. cbn [do_subs] in E.
-      destruct (do_cache f sids split c a b st) as [r c1] eqn:D.
-      destruct (do_subs f sids split c1 subs st) as [rs1 c2] eqn:D2.
+      destruct (do_cache f sids sto split c a b st) as [r c1] eqn:D.
+      destruct (do_subs f sids sto split c1 subs st) as [rs1 c2] eqn:D2.
       inversion E; subst. clear E.
       destruct Hab as (A1 & A2 & A3 & A4). cbn [fst snd] in *.
       destruct (do_cache_spec split c a b st r c1 Hst A1 A2 A3 A4 Hc D) as [-> Hc1].
@@ -847,7 +857,7 @@ Section History.
 
   Lemma do_query_spec split use_split c s0 e0 st r c' :
     0 < split -> 0 < st -> 0 <= s0 -> s0 <= e0 -> cache_ok c ->
-    do_query f sids split use_split c (s0, e0, st) = Some (r, c') ->
+    do_query f sids sto split use_split c (s0, e0, st) = Some (r, c') ->
     r = direct f sids (s0, e0, st) /\ cache_ok c'.
   Proof.
     intros Hsp Hst Hs0 Hse Hc E. unfold do_query, direct in *. unfold step_align in *.
@@ -862,7 +872,7 @@ Section History.
         by (unfold ns_per_ms; rewrite Z.quot_mul by lia; lia).
       destruct (split_query_correct s e st _ Hst Hms Hle) as (l & Hl & Hcat & _).
       rewrite Hl in E.
-      destruct (do_subs f sids split c l st) as [rs cc] eqn:D.
+      destruct (do_subs f sids sto split c l st) as [rs cc] eqn:D.
       inversion E; subst. clear E.
       assert (Fsub : Forall (sub_ok st) l).
       { unfold split_query in Hl. destruct (s =? e) eqn:Q.
@@ -877,7 +887,7 @@ Section History.
         destruct (Fsub ab Hab) as (A & B & C & D'). exists (fst ab), (snd ab). split; [exact C|].
         split; [apply steps_incr; exact Hst | apply steps_iv; assumption].
       + intro t. rewrite <- Hcat. rewrite in_concat. split; intros (x & A & B); exists x; auto.
-    - destruct (do_cache f sids split c s e st) as [r1 c1] eqn:D. inversion E; subst. clear E.
+    - destruct (do_cache f sids sto split c s e st) as [r1 c1] eqn:D. inversion E; subst. clear E.
       eapply do_cache_spec; eauto.
   Qed.
 
@@ -885,28 +895,28 @@ Section History.
 
   Lemma do_query_total split use_split c s0 e0 st :
     0 < split -> 0 < st -> 0 <= s0 -> s0 <= e0 ->
-    do_query f sids split use_split c (s0, e0, st) <> None.
+    do_query f sids sto split use_split c (s0, e0, st) <> None.
   Proof.
     intros Hsp Hst Hs0 Hse. unfold do_query, step_align.
     set (s := Z.quot s0 st * st). set (e := Z.quot e0 st * st).
     assert (Hle : s <= e).
     { unfold s, e. assert (Z.quot s0 st <= Z.quot e0 st) by (apply Z.quot_le_mono; lia). nia. }
-    destruct use_split; [|destruct (do_cache f sids split c s e st); discriminate].
+    destruct use_split; [|destruct (do_cache f sids sto split c s e st); discriminate].
     assert (Hms : 0 < Z.quot (split * ns_per_ms) ns_per_ms)
       by (unfold ns_per_ms; rewrite Z.quot_mul by lia; lia).
     destruct (split_query_correct s e st _ Hst Hms Hle) as (l & Hl & _). rewrite Hl.
-    destruct (do_subs f sids split c l st). discriminate.
+    destruct (do_subs f sids sto split c l st). discriminate.
   Qed.
 
   Theorem history_exact split use_split : 0 < split -> forall qs c,
     Forall query_ok qs -> cache_ok c ->
-    exists rs c', history f sids split use_split c qs = Some (rs, c')
+    exists rs c', history f sids sto split use_split c qs = Some (rs, c')
       /\ rs = map (direct f sids) qs /\ cache_ok c'.
   Proof.
     intros Hsp. induction qs as [|[[s0 e0] st] qs IH]; intros c F Hc.
     - exists [], c. cbn. auto.
     - inversion F as [|? ? Hq F']; subst. cbn in Hq. destruct Hq as (Hst & Hs0 & Hse). cbn [history].
-      destruct (do_query f sids split use_split c (s0, e0, st)) as [[r c1]|] eqn:D;
+      destruct (do_query f sids sto split use_split c (s0, e0, st)) as [[r c1]|] eqn:D;
         [|exfalso; exact (do_query_total split use_split c s0 e0 st Hsp Hst Hs0 Hse D)].
       destruct (do_query_spec split use_split c s0 e0 st r c1 Hsp Hst Hs0 Hse Hc D) as [-> Hc1].
       destruct (IH c1 F' Hc1) as (rs & c' & E & -> & Hc'). rewrite E.
@@ -927,13 +937,13 @@ Proof.
   apply list_eqb_refl. intros [t v]. unfold zz_eqb'. cbn. rewrite !Z.eqb_refl. reflexivity.
 Qed.
 
-Theorem history_pred d split use_split qs :
+Theorem history_pred d ns atm split use_split qs :
   incr (map fst d) -> 0 < split -> Forall query_ok qs ->
-  exists rs c, history (f_of d) (map fst d) split use_split [] qs = Some (rs, c)
-    /\ pred_ok (CHist split use_split d qs rs c) = true.
+  exists rs c, history (f_of d) (map fst d) (sto_of ns atm) split use_split [] qs = Some (rs, c)
+    /\ pred_ok (CHist split use_split d ns atm qs rs c) = true.
 Proof.
   intros Hs Hsp F.
-  destruct (history_exact (f_of d) (map fst d) Hs split use_split Hsp qs [] F (cache_ok_empty _ _)) as (rs & c & E & -> & _).
+  destruct (history_exact (f_of d) (map fst d) Hs (sto_of ns atm) split use_split Hsp qs [] F (cache_ok_empty _ _)) as (rs & c & E & -> & _).
   exists (map (direct (f_of d) (map fst d)) qs), c. split; [exact E|].
   cbn [pred_ok]. apply list_eqb_refl. apply matrix_eqb_refl.
 Qed.
@@ -955,14 +965,14 @@ Proof.
 Qed.
 Transparent Z.mul.
 
-Theorem history_kinds (l : list (Z * list (Z * Z) * list (Z * Z))) split use_split qs :
+Theorem history_kinds (l : list (Z * list (Z * Z) * list (Z * Z))) ns atm split use_split qs :
   incr (map (fun x => fst (fst x)) l) -> 0 < split -> Forall query_ok qs ->
   slice_keeps_equal = false /\
   exists rs c,
     history (f_of (flat_map (fun x => [(2 * fst (fst x), snd (fst x)); (2 * fst (fst x) + 1, snd x)]) l))
             (map fst (flat_map (fun x => [(2 * fst (fst x), snd (fst x)); (2 * fst (fst x) + 1, snd x)]) l))
-            split use_split [] qs = Some (rs, c)
-    /\ pred_ok (CHist split use_split (flat_map (fun x => [(2 * fst (fst x), snd (fst x)); (2 * fst (fst x) + 1, snd x)]) l) qs rs c) = true.
+            (sto_of ns atm) split use_split [] qs = Some (rs, c)
+    /\ pred_ok (CHist split use_split (flat_map (fun x => [(2 * fst (fst x), snd (fst x)); (2 * fst (fst x) + 1, snd x)]) l) ns atm qs rs c) = true.
 Proof.
   intros H Hsp F. split; [apply slice_strict|]. apply history_pred; auto. apply both_kinds_incr. exact H.
 Qed.
